@@ -79,6 +79,7 @@ def run(ctx):
     if prop == "C06":
         quic_links(ctx)
         flash(ctx)
+        storm(ctx)
 
 
 def flash(ctx):
@@ -95,6 +96,19 @@ def flash(ctx):
     if x["reported_at_end"]:
         ctx.violation("C06:quic:a closed link is reported for ever (its loss was reported before it was registered)",
                       "%d of %d links that were closed the moment they were established are still reported 20 s later (%d of them closed)" % (x["reported_at_end"], x["connected"], x["closed_still_reported"]), x)
+
+
+def storm(ctx):
+    """the same endpoint (address, identity) reconnects twice in quick succession while the controller's lock is contended: the established
+    report of the older link must not be handled after that of the newer one (QuicLinks.tla: EstCallback is in creation order)"""
+    opath = os.path.join(ctx.tmp, "storm.ndjson")
+    ctx.go_run("quicnet", ["-mode", "storm", "-out", opath], timeout=3000)
+    x = vlib.read_ndjson(opath)[-1]
+    ctx.evaluations += x["rounds"]
+    ctx.cov["reconnect_rounds"] = x["rounds"]
+    if x["registry_wrong"] or x["second_link_closed"]:
+        ctx.violation("C06:quic:a newer link was removed by the late established report of the link it replaced",
+                      "%d of %d quick reconnects of one endpoint: the newer link is not (or not alone) registered afterwards (%s)" % (x["registry_wrong"], x["rounds"], (x.get("details") or [""])[0]), x)
 
 
 def quic_links(ctx):
